@@ -254,6 +254,22 @@ func init() {
 			return true
 		})
 
+		// the SQL datastores' own serializer for ReadChanges positions (pkg/storage/sqlcommon)
+		fsetQ, fQ, err := parseFile(repo, "pkg/storage/sqlcommon/sqlcommon.go")
+		if err != nil {
+			return Result{}, err
+		}
+		sqlSer := findFunc(fQ, "SQLContinuationTokenSerializer", "Serialize")
+		sqlDes := findFunc(fQ, "SQLContinuationTokenSerializer", "Deserialize")
+		if sqlSer == nil || sqlDes == nil {
+			return Result{}, fmt.Errorf("SQLContinuationTokenSerializer.Serialize/Deserialize not found")
+		}
+		sqlSerBody, sqlDesBody := src(fsetQ, sqlSer.Body), src(fsetQ, sqlDes.Body)
+		sqlNewTok := ""
+		if nt := findFunc(fQ, "", "NewContToken"); nt != nil {
+			sqlNewTok = src(fsetQ, nt.Body)
+		}
+
 		b := func(x bool) string {
 			if x {
 				return "true"
@@ -286,6 +302,10 @@ func init() {
 		sb.WriteString("def readChangesCodecCalls : List String := " + leanStrList(rcSerArgs) + "\n")
 		sb.WriteString("/-- what the query hands to the backend (start position, type filter) -/\n")
 		sb.WriteString("def readChangesBackendArgs : List String := " + leanStrList(rcBackend) + "\n")
+		sb.WriteString("/-- bodies of sqlcommon.SQLContinuationTokenSerializer.Serialize / Deserialize and NewContToken -/\n")
+		sb.WriteString("def sqlSerializeBody : String := " + leanStr(sqlSerBody) + "\n")
+		sb.WriteString("def sqlDeserializeBody : String := " + leanStr(sqlDesBody) + "\n")
+		sb.WriteString("def sqlNewContTokenBody : String := " + leanStr(sqlNewTok) + "\n")
 		sb.WriteString("\nend OpenFGAVerif.Gen.Token\n")
 		return Result{Lean: sb.String(), Summary: map[string]interface{}{
 			"serializeSep": serSep, "deserializeSep": cutSep, "base64": []string{encFl, decFl},
